@@ -341,38 +341,135 @@ def repo_mmm():
 
 # ------------------------------------------------------------------------------------------------
 # known findings: class predicates (KNOWN_FINDINGS.txt, property=C04)
+# A failure of the oracle is an `event`: {"kind": "panic"|"abort"|"badspan", "stage", "file" (panic site, path below
+# crates/), "msg", "text", "parse_errors": bool, "still_aborts_with_big_stack": bool (aborts only)}.
+# A class is as narrow as the cause that was identified: panic site file + message of that site (+ a condition on the text
+# where the cause has a syntactic signature).  Line numbers are not used (they shift).
 # ------------------------------------------------------------------------------------------------
-def strip_trivia(text):
-    return "".join(t for t in split_text(text) if not (t.isspace() or t.startswith("//") or t.startswith("/*")))
+def toks_of(text):
+    return [t for t in split_text(text) if not (t.isspace() or t.startswith("//") or t.startswith("/*"))]
 
 
-def cls_if_inside_tuple_literal(text, stage, msg):
-    """F13: an `if` lexically inside an element of a tuple literal `( .. , .. )`; bytecodegen panics"""
-    if stage != "emit_bytecode" or not (re.search(r"value (reg|state)\(\d+\) not found", msg) or "Unexpected inst: Alloc" in msg):
-        return False
-    toks = [t for t in split_text(text) if not (t.isspace() or t.startswith("//") or t.startswith("/*"))]
-    # positions of `if` that sit inside a paren group containing a comma at its own depth
-    stack = []   # (index of '(', has_comma, has_if_inside)
-    for t in toks:
-        if t == "(":
-            stack.append([False, False])
-        elif t == ")":
-            if stack:
-                c, i = stack.pop()
-                if c and i:
+def has_incomplete_record(text):
+    """an incomplete record literal `{ a = e , .. }`: a `..` token after an opening `{` (parse_record_expr ends the record at `..`)"""
+    t = toks_of(text)
+    return ".." in t and "{" in t[:t.index("..")]
+
+
+def has_default_param(text):
+    """`name =` or `name : type =` directly inside the parameter parentheses of a fn / macro / lambda"""
+    t = toks_of(text)
+    for i, x in enumerate(t):
+        if x in ("fn", "macro") or x == "|":
+            depth, j = 0, i + 1
+            close = "|" if x == "|" else None
+            while j < len(t) and j < i + 400:
+                if t[j] in "([{":
+                    depth += 1
+                elif t[j] in ")]}":
+                    depth -= 1
+                    if depth <= 0 and close is None:
+                        break
+                elif t[j] == "=" and depth <= 1:
                     return True
-                if stack and i:
-                    stack[-1][1] = True
-        elif t == "," and stack:
-            stack[-1][0] = True
-        elif t == "if" and stack:
-            stack[-1][1] = True
+                elif close and t[j] == close and depth == 0:
+                    break
+                j += 1
     return False
 
 
+def in_file(e, name):
+    return e["file"].endswith(name)
+
+
+MIRGEN, TYPING, BCGEN, RECCHK, VMRS = ("compiler/mirgen.rs", "compiler/typing.rs", "compiler/bytecodegen.rs",
+                                       "compiler/mirgen/recursecheck.rs", "runtime/vm.rs")
+EMIT = ("emit_bytecode", "emit_wasm")
+
 CLASSES = {
-    "if-inside-tuple-literal": cls_if_inside_tuple_literal,
+    # F40: typing::infer_root drops the Err returned for the root expression; compile_with_module_info unwraps it again
+    "root-expression-type-error-dropped":
+        lambda e: e["kind"] == "panic" and e["stage"] in EMIT and in_file(e, MIRGEN)
+        and e["msg"].startswith("called `Result::unwrap()` on an `Err` value: ["),
+    # F41: Expr::Error produced without a diagnostic (empty program / empty fn body / truncated definition / staged code)
+    "error-node-reaches-bytecode-generator":
+        lambda e: e["kind"] == "panic" and e["stage"] in EMIT and in_file(e, BCGEN)
+        and e["msg"].startswith("not implemented: Instruction not implemented: Error"),
+    # F42: the callee of a call is a parse-error placeholder, or the call sits in a default value / incomplete-record field
+    "call-of-non-function-reaches-mirgen":
+        lambda e: e["kind"] == "panic" and e["stage"] in EMIT and in_file(e, MIRGEN) and e["msg"].startswith("non function type ")
+        and (e["parse_errors"] or has_default_param(e["text"]) or has_incomplete_record(e["text"])),
+    # F43: Bracket/Escape/MacroExpand left in the AST given to mirgen (`_` argument outside `||>`, staging only in default values)
+    "staging-construct-reaches-mirgen":
+        lambda e: e["kind"] == "panic" and e["stage"] in EMIT and in_file(e, MIRGEN)
+        and "Macro code should be expanded before mirgen" in e["msg"]
+        and (e["parse_errors"] or "_" in toks_of(e["text"]) or (has_default_param(e["text"]) and any(t in toks_of(e["text"]) for t in ("`", "$", "!")))),
+    # F44: tuple / record pattern of a `let` against a value typing accepted but mirgen does not see as tuple / record
+    "let-pattern-shape-mismatch":
+        lambda e: e["kind"] == "panic" and e["stage"] in EMIT and in_file(e, MIRGEN) and e["msg"].startswith("typing error in the previous stage")
+        and "let" in toks_of(e["text"]),
+    # F45: convert_qualified_names skips default parameter values (operators are QualifiedVar intrinsics there)
+    "default-value-not-name-resolved":
+        lambda e: e["kind"] == "panic" and e["stage"] in EMIT and in_file(e, TYPING)
+        and "Qualified Var should be removed in the previous" in e["msg"] and has_default_param(e["text"]),
+    # F46: Expr::ImcompleteRecord is traversed neither by convert_pronoun nor by typing
+    "incomplete-record-literal-not-traversed":
+        lambda e: e["kind"] == "panic" and has_incomplete_record(e["text"]) and (
+            (in_file(e, RECCHK) and "entered unreachable code" in e["msg"])
+            or (in_file(e, TYPING) and re.search(r'"(self|_)" should not be shown at type inference stage', e["msg"]) and e["stage"] in EMIT)
+            or (in_file(e, BCGEN) and re.match(r"value extfun \S+ ! not found", e["msg"]) and e["stage"] == "emit_bytecode")),
+    # F47: unimplemented!() arm of typing for Assign(ArrayAccess, _)
+    "assignment-to-index-expression":
+        lambda e: e["kind"] == "panic" and in_file(e, TYPING) and "Assignment to array is not implemented yet" in e["msg"],
+    # F48: unit value (Value::None) moved / stored by the bytecode generator
+    "unit-value-in-if-arm-or-let":
+        lambda e: e["kind"] == "panic" and e["stage"] == "emit_bytecode" and in_file(e, BCGEN) and e["msg"].startswith("value none not found"),
+    # F49: assignment whose target typing accepts but mirgen has no variable for
+    "assignment-target-not-a-variable":
+        lambda e: e["kind"] == "panic" and e["stage"] in EMIT and in_file(e, MIRGEN)
+        and ("Invalid assignment target" in e["msg"] or e["msg"].startswith("Expected record type for field access assignment")),
+    # F50: default parameter values are not type checked; mirgen infers them lazily and panics / asserts
+    "default-value-not-type-checked":
+        lambda e: e["kind"] == "panic" and e["stage"] in EMIT and in_file(e, MIRGEN)
+        and (e["msg"].startswith("type inference failed for expr") or e["msg"].startswith("assertion failed: tys.windows(2)"))
+        and (has_default_param(e["text"]) or has_incomplete_record(e["text"]) or e["parse_errors"]),
+    # F51: occurs check misses function / code / ref types: cyclic type, infinite recursion (stack overflow whatever the stack size)
+    "cyclic-type-infinite-recursion":
+        lambda e: e["kind"] == "abort" and e["stage"] in ("typecheck",) + EMIT and e.get("still_aborts_with_big_stack", False),
+    # F52: lower_macro_expand takes the first QualifiedPath among ALL children (arguments included) as the callee
+    "macro-callee-taken-from-arguments":
+        lambda e: e["kind"] == "badspan" and re.search(r'Variable "[^"]*\$[^"]*" not found', e["msg"]) is not None
+        and "!" in toks_of(e["text"]) and "::" in toks_of(e["text"]) and span_reversed(e["msg"]),
+    # F53: typing Proj: `vec.len() < idx` instead of `<=`
+    "tuple-projection-index-equals-arity":
+        lambda e: e["kind"] == "panic" and in_file(e, TYPING) and e["msg"].startswith("index out of bounds: the len is")
+        and re.search(r"\.\s*\d", strip_comment_text(e["text"])) is not None,
+    # F54: the compiler executes macro-stage (stage-0) code on an internal VM: missing runtime externs, code built from a recovered AST,
+    #      a macro stage that does not evaluate to code
+    "stage0-vm-execution-panics":
+        lambda e: e["kind"] == "panic" and e["stage"] in EMIT and in_file(e, VMRS)
+        and (re.match(r"external function \S+ cannot be found", e["msg"]) is not None
+             or (e["msg"].startswith("range end index") and (e["parse_errors"] or "stage" in toks_of(e["text"])))),
+    # F55: an external / builtin function used as a first-class value (VM backend)
+    "extern-function-as-value":
+        lambda e: e["kind"] == "panic" and e["stage"] == "emit_bytecode" and in_file(e, BCGEN)
+        and (e["msg"].startswith("called `Option::unwrap()` on a `None` value") or re.match(r"value extfun \S+ (?!! )\S.* not found", e["msg"])),
 }
+
+
+def span_reversed(first):
+    m = re.match(r"(\d+)\.\.(\d+) len", first)
+    return bool(m) and int(m.group(1)) > int(m.group(2))
+
+
+CLASSES["fabricated-span-0-1-inside-multibyte-char"] = (
+    # F56: typing.rs Error::get_labels invents the span 0..1 when neither side of a type mismatch has a location
+    lambda e: e["kind"] == "badspan" and re.match(r"0\.\.1 len \d+ : Type mismatch", e["msg"]) is not None
+    and len(e["text"]) > 0 and len(e["text"][0].encode("utf-8")) > 1)
+
+
+def strip_comment_text(text):
+    return " ".join(toks_of(text))
 
 
 # ------------------------------------------------------------------------------------------------
@@ -628,16 +725,44 @@ def run(ck):
     oracle_bad = []        # (origin, text, what, detail)
     ostats = {"oracle_cases": 0, "stage_calls": 0, "value": 0, "diagnostics": 0, "diagnostic_spans": 0, "known": 0}
 
-    def classify(text, stage, msg):
+    def classify(ev):
         for cls, pred in CLASSES.items():
-            if cls in findings and pred(text, stage, msg):
+            if cls in findings and pred(ev):
                 return findings[cls]
         return None
+
+    def split_panic(msg):
+        m = re.match(r"@(\S*?)(?::\d+)? (.*)", msg, re.S)
+        if not m:
+            return "", msg
+        f = m.group(1)
+        return (f.split("crates/", 1)[1] if "crates/" in f else f), m.group(2)
+
+    known_counts = {}
+
+    def report(origin, t, ev, what, detail):
+        f = classify(ev)
+        if f:
+            ostats["known"] += 1
+            known_counts[f["cls"]] = known_counts.get(f["cls"], 0) + 1
+            ck.known(f, f"{t[:60]!r}: {detail[:120]}")
+        else:
+            oracle_bad.append((origin, t, what, detail))
 
     def oracle_phase(origin, texts, limit=CASE_LIMIT_S, stack=STACK_MIB):
         t0 = time.time()
         items = list(enumerate(texts))
         res = oracle_run(front, items, limit=limit, stack=stack)
+        # an abort may be a stack overflow of a finite recursion (nesting) or an infinite one: ask again with 32x the stack
+        crashed_ids = [i for i, _ in items if "crash" in (res.get(i) or {})]
+        big = {}
+        if crashed_ids:
+            def again(i):
+                r2 = oracle_run(front, [(0, texts[i])], limit=limit, stack=stack * 32, workers=1)
+                return i, r2.get(0) or {}
+            with concurrent.futures.ThreadPoolExecutor(max_workers=8) as ex:
+                for i, r2 in ex.map(again, crashed_ids[:400]):
+                    big[i] = r2
         for i, t in items:
             r = res.get(i)
             ostats["oracle_cases"] += 1
@@ -654,26 +779,30 @@ def run(ck):
                     state["stop"] = True
                 continue
             if "crash" in r:
-                oracle_bad.append((origin, t, "abort", r["crash"]))
+                r2 = big.get(i, {})
+                ev = {"kind": "abort", "stage": r.get("stage", "?"), "file": "", "msg": r["crash"], "text": t, "parse_errors": False,
+                      "still_aborts_with_big_stack": "crash" in r2 and r2.get("stage") == r.get("stage")}
+                report(origin, t, ev, "abort", r["crash"] + (" (also with a %d MiB stack: unbounded recursion)" % (stack * 32) if ev["still_aborts_with_big_stack"]
+                                                             else " (not with a %d MiB stack: recursion depth)" % (stack * 32)))
                 continue
-            for (stage, oc, n, nbad, msg, first) in r.get("st", []):
+            sts = r.get("st", [])
+            perr = any(s_[0] == "parse_to_expr" and s_[1] == "D" for s_ in sts)
+            for (stage, oc, n, nbad, msg, first) in sts:
                 if oc == "-":
                     continue
                 ostats["stage_calls"] += 1
                 if oc == "P":
-                    f = classify(t, stage, msg)
-                    if f:
-                        ostats["known"] += 1
-                        ck.known(f, f"{t[:60]!r}: {stage} panics: {msg[:80]}")
-                    else:
-                        oracle_bad.append((origin, t, "panic", f"{stage}: {msg[:300]}"))
+                    f_, m_ = split_panic(msg)
+                    ev = {"kind": "panic", "stage": stage, "file": f_, "msg": m_, "text": t, "parse_errors": perr}
+                    report(origin, t, ev, "panic", f"{stage}: {f_}: {m_[:300]}")
                 elif oc == "N":
                     oracle_bad.append((origin, t, "error-without-diagnostic", stage))
                 else:
                     ostats["value" if oc == "V" else "diagnostics"] += 1
                     ostats["diagnostic_spans"] += n if stage != "tokenize" else 0
                     if nbad:
-                        oracle_bad.append((origin, t, "span-outside-text-or-not-on-char-boundary", f"{stage}: {first[:300]}"))
+                        ev = {"kind": "badspan", "stage": stage, "file": "", "msg": first, "text": t, "parse_errors": perr}
+                        report(origin, t, ev, "span-outside-text-or-not-on-char-boundary", f"{stage}: {first[:300]}")
         timing[origin + ":oracle"] = round(timing.get(origin + ":oracle", 0) + time.time() - t0, 1)
 
     def both(origin, texts, sample_every=0, oracle=True):
@@ -795,6 +924,7 @@ def run(ck):
     ck.coverage["token_kinds_never_seen"] = sorted(set(KINDS) - stats["seen_kinds"])
     ck.coverage["syntax_kinds_seen"] = len(stats["seen_nodes"])
     ck.coverage.update(ostats)
+    ck.coverage["cases_in_known_classes"] = dict(sorted(known_counts.items()))
 
     # ---- verdicts ----
     def replay_obj(origin, t, extra):
